@@ -259,6 +259,75 @@ def h_ecl(ctx):
     ctx.vc("zero interval: eta = p = 0 (identity)", implies(j1 == j2, and_(eta_poly == 0, p_poly == 0)))
 
 
+# ---- orbital elements to another equinox: the new (i, node) are the orbit normal in the new ecliptic, the new argument of
+#      perihelion follows the node along the orbit
+def _orbital_cuts():
+    def grab(it, frame):
+        L = frame.locals
+        it.info["orb"] = dict(eta=Num.of(L["eta"].fields["_deg"]), pie=Num.of(L["pie"].fields["_deg"]), p=Num.of(L["p"].fields["_deg"]))
+        return True
+    return {("orbital_equinox2equinox", "pir", 1): grab}
+
+
+@P.harness("orbital_equinox2equinox/rotation-of-the-orbit", contracts=CONTRACTS, cuts=_orbital_cuts,
+           axioms=("pi", "inverse-range", "trig-range"), functions=[COORD + "orbital_equinox2equinox"], crosscheck=0, timeout=60,
+           branch_timeout_ms=500)
+def h_orbital(ctx):
+    """general branch (i0 != 0).  With u = node0 - Pi, the orbit normal in the frame whose x axis is the line of nodes of the two
+    ecliptics is n = (sin i0 sin u, -sin i0 cos u, cos i0); the new ecliptic is that frame turned by eta about x.  Proved: the
+    arguments (A, B) of the node arctangent and C of the inclination arc cosine are (n'_x, -n'_y, n'_z) for n' = R_x(eta) n (so
+    A^2 + B^2 + C^2 == 1), node1 == atan2(A, B) + Pi + p (mod 360), i1 == acos(C clamped); the arguments (D1, D2) of the
+    perihelion arctangent are sin i1 times the sine and cosine of the angle from the new node to the old one measured in the
+    orbit (n . (N1 x N0), N1 . N0), and arg1 == arg0 + atan2(D1, D2) (mod 360)"""
+    from specs.rotations import rot_x, matvec
+    if ctx.native:
+        return
+    e0, j0 = epoch(ctx, "jde0")
+    e1, j1 = epoch(ctx, "jde1")
+    inc, i0 = angle(ctx, "i0", 0, 180)
+    arg, w0 = angle(ctx, "arg0")
+    lon, o0 = angle(ctx, "lon0")
+    out = ctx.call(COORD + "orbital_equinox2equinox", e0, e1, inc, arg, lon)
+    orb = ctx.it.info["orb"]
+    eta, pie, p = orb["eta"], orb["pie"], orb["p"]
+    u = radians_(o0 - pie)
+    ir, er = radians_(i0), radians_(eta)
+    n = (sin_(ir) * sin_(u), -sin_(ir) * cos_(u), cos_(ir))
+    n1 = matvec(rot_x(er), n)
+    calls = ctx.uf_terms("atan2")
+    if len(calls) < 2:
+        ctx.vc("the special case is taken only for an inclination that is zero to the Angle tolerance (1e-10 deg)", i0 < Fraction(1, 10 ** 9))
+        return
+    ctx.vc("the general formulas are used for every inclination above the Angle tolerance", i0 >= Fraction(1, 10 ** 11))
+    (A, B), (D1, D2) = calls[-2:]
+    C = None
+    for margs in ctx.min_args():
+        cand = [m for m in margs if not (isinstance(m, (int, float)) or (isinstance(m, Num) and m.is_concrete()))]
+        if len(cand) == 1:
+            C = Num.of(cand[0])
+    if C is None:
+        (C,), = ctx.uf_terms("acos")[-1:]
+    ctx.identity("node arctangent numerator == n'_x", A, n1[0])
+    ctx.identity("node arctangent denominator == -n'_y", B, -n1[1])
+    ctx.identity("inclination arc cosine argument == n'_z", C, n1[2])
+    ctx.identity("A^2 + B^2 + C^2 == 1", A * A + B * B + C * C, 1)
+    i1, w1, o1 = deg(ctx, out[0]), deg(ctx, out[1]), deg(ctx, out[2])
+    pi = pi_()
+    t = (atan2_(A, B) * 180 / pi + pie + p - o1) / 360
+    ctx.vc("node1 == degrees(atan2(A, B)) + Pi + p (mod 360)", t == floor_(t))
+    Cc = ite(C > 1, Num.of(1.0), ite(C < -1, Num.of(-1.0), C))
+    ctx.vc("i1 == degrees(acos(C)) with C clamped into [-1, 1]", i1 * pi == acos_(Cc) * 180)
+    # the old node N0 = (cos u, sin u, 0); the new node N1 = R_x(eta)^T (cos psi, sin psi, 0), sin i1 (cos psi, sin psi) = (B, A)
+    ctx.identity("perihelion arctangent denominator == sin i1 (N1 . N0)", D2, B * cos_(u) + cos_(er) * A * sin_(u))
+    ctx.identity("perihelion arctangent numerator == sin i1 (n . (N1 x N0))",
+                 D1, -sin_(er) * sin_(ir) * A + cos_(ir) * B * sin_(u) - cos_(er) * cos_(ir) * A * cos_(u))
+    ctx.identity("D1^2 + D2^2 == A^2 + B^2 (= sin^2 i1)", D1 * D1 + D2 * D2, A * A + B * B)
+    t2 = (w0 + atan2_(D1, D2) * 180 / pi - w1) / 360
+    ctx.vc("arg1 == arg0 + degrees(atan2(D1, D2)) (mod 360)", t2 == floor_(t2))
+    ctx.vc("caller's Angles and Epochs unchanged",
+           and_(deg(ctx, inc) == i0, deg(ctx, arg) == w0, deg(ctx, lon) == o0, ctx.field(e0, "_jde") == j0, ctx.field(e1, "_jde") == j1))
+
+
 # ---- bounded: binary64 and the clauses that compare separately coded polynomial sets
 @P.bounded_check("float/precession", grid="directions: Fibonacci sphere 300/20000 + 60/2000 within 5 deg of each pole; "
                  "epoch pairs within +-5 centuries (+-20 for the rotation clauses); proper motions up to 10 arcsec/yr")
